@@ -224,6 +224,8 @@ def check_C12(ctx):
     progs = [g.program() for _ in range(ctx.n(12, 60))] + [b"def t { x = 1 }\nbind t -> struct\nprint 1\nprint 2\n",
                                                             b"print 1/0\n", b"var a = 1\n" * 200 + b"print a\n",
                                                             b"def t { x = 1 }\ndef t { x = 2 }\nbind t:first -> struct\nbind t:last -> struct\nbind t:all -> slice\nprint 3\n"]
+    from . import interp as _interp
+    progs = _interp.drop_excluded(ctx, progs)
     ccases = [dict(id="conc%d" % k, progs=[p.hex() for p in progs], n=ctx.n(8, 32)) for k in range(ctx.n(2, 6))]
     cres, craces, crc = probe_race(ctx, "concurrent", ccases, "race_conc")
     if craces:
